@@ -303,7 +303,7 @@ impl Prop for C14 {
         60
     }
     fn cases(tier: Tier) -> u64 {
-        tier.pick(600, 8000)
+        tier.pick(600, 4000)
     }
     fn strategy(_tier: Tier) -> BoxedStrategy<Case> {
         let bw = small_opts()
